@@ -300,25 +300,28 @@ Extended(ctx, vm, op) ==
                     [i \in 1..Len(a) |-> IF op = OP_AND THEN BitAnd8(a[i], b[i])
                                          ELSE IF op = OP_OR THEN BitOr8(a[i], b[i]) ELSE BitXor8(a[i], b[i])])]
     ELSE IF op \in {OP_2MUL, OP_2DIV} THEN
-        LET o == Num(ctx, Top(s, 1))
-        IN IF ~o[1] THEN (IF Len(Top(s, 1)) > 4 THEN Unspec(vm) ELSE Fail(vm, "ANY"))
+        \* the arithmetic re-enabled opcodes read operands of up to five bytes (results of earlier arithmetic are script values too)
+        LET o == Num5(ctx, Top(s, 1))
+        IN IF ~o[1] THEN (IF Len(Top(s, 1)) > 5 THEN Unspec(vm) ELSE Fail(vm, "ANY"))
            ELSE IF op = OP_2MUL THEN [vm EXCEPT !.stack = Push(PopN(s, 1), Encode(IMul(o[2], IntFromSmall(2))))]
            \* halving is division by two, and division (OP_DIV) truncates toward zero
            ELSE [vm EXCEPT !.stack = Push(PopN(s, 1), Encode(IDiv(o[2], IntFromSmall(2))))]
     ELSE \* MUL DIV MOD LSHIFT RSHIFT
-        LET oa == Num(ctx, Top(s, 2))
-            ob == Num(ctx, Top(s, 1))
-        IN IF Len(Top(s, 1)) > 4 \/ Len(Top(s, 2)) > 4 THEN Unspec(vm)
+        LET oa == Num5(ctx, Top(s, 2))
+            ob == Num5(ctx, Top(s, 1))
+        IN IF Len(Top(s, 1)) > 5 \/ Len(Top(s, 2)) > 5 THEN Unspec(vm)
            ELSE IF ~oa[1] \/ ~ob[1] THEN Fail(vm, "ANY")
            ELSE LET a == oa[2]
                     b == ob[2]
-                IN IF op = OP_MUL THEN [vm EXCEPT !.stack = Push(PopN(s, 2), Encode(IMul(a, b)))]
+                IN IF op = OP_MUL THEN
+                        \* a product that does not fit 63 bits is not compared (the tool computes in 64-bit integers)
+                        (IF ~Fits64(IMul(a, b)) THEN Unspec(vm) ELSE [vm EXCEPT !.stack = Push(PopN(s, 2), Encode(IMul(a, b)))])
                    ELSE IF op \in {OP_DIV, OP_MOD} THEN
                         (IF b = Zero THEN Fail(vm, "ANY")
                          ELSE [vm EXCEPT !.stack = Push(PopN(s, 2), Encode(IF op = OP_DIV THEN IDiv(a, b) ELSE IMod(a, b)))])
                    ELSE \* shifts
                         IF IsNeg(b) THEN Unspec(vm)
-                        ELSE IF ToInt(Mag(b)) > 63 THEN Fail(vm, "ANY")  \* the tool refuses counts above 63
+                        ELSE IF Len(Mag(b)) > 1 \/ ToInt(Mag(b)) > 63 THEN Fail(vm, "ANY")  \* the tool refuses counts above 63
                         \* a left shift whose result does not fit 63 bits is not compared (the tool computes in 64-bit integers)
                         ELSE IF op = OP_LSHIFT /\ NumBits(Mag(a)) + ToInt(Mag(b)) > 62 THEN Unspec(vm)
                         ELSE IF op = OP_LSHIFT THEN [vm EXCEPT !.stack = Push(PopN(s, 2), Encode(IMul(a, MkInt(FALSE, Pow2(ToInt(Mag(b)))))))]
